@@ -92,6 +92,10 @@ def load_family(repo: Repo, family: str) -> List[Entry]:
         lit = ast.Dict(keys=[ast.copy_location(ast.Constant(k.arg), k.value) for k in node.keywords],
                        values=[k.value for k in node.keywords])
         node = ast.copy_location(lit, node)
+    if node is not None and not isinstance(node, ast.Dict):
+        built = _computed_registry(repo, mod, family, node)
+        if built is not None:
+            return built
     if node is None or not isinstance(node, ast.Dict):
         raise AnalysisError(f"anchor vanished: {mod.name}.handlers is not a dict literal")
     out = []
@@ -100,6 +104,45 @@ def load_family(repo: Repo, family: str) -> List[Entry]:
             raise AnalysisError(f"{mod.name}.handlers: non-constant key {ast.unparse(k) if k else '**'}")
         out.append(_resolve_value(repo, mod, k.value, family, v, k.lineno))
     out.extend(_decorator_registrations(repo, mod, family))
+    return out
+
+
+def _computed_registry(repo: Repo, mod: ModuleInfo, family: str, node: ast.expr) -> Optional[List[Entry]]:
+    """`handlers = build(TABLE, ...)`: the registry is what the call evaluates to.  A value that is a module-level function
+    (or a partial over one) is an ordinary entry; a generated closure is an opaque entry that the interpreter reads back
+    from the computed table when the entry is run."""
+    interp = sym.Interp(repo)
+    table = interp.computed_table(mod, "handlers")
+    if table is None:
+        return None
+    out: List[Entry] = []
+    lineno = getattr(node, "lineno", 1)
+    for k, v in table.a[0]:
+        if not isinstance(k.a[0], str):
+            raise AnalysisError(f"{mod.name}.handlers: non-string key {k.a[0]!r}")
+        key = k.a[0]
+        found = repo.lookup(v.a[0]) if v.op == "func" else None
+        if found and found[0] == "func":
+            out.append(Entry(key, family, found[1], found[2].name, found[2], (), (), lineno, f"{found[2].name} (computed table)"))
+            continue
+        if v.op == "call" and v.a[0] == sym.T("global", ("functools.partial",)) and v.a[1] and v.a[1][0].op == "func":
+            found = repo.lookup(v.a[1][0].a[0])
+            if found and found[0] == "func":
+                pos = tuple(_term_to_ast(repo, mod, x) for x in v.a[1][1:])
+                kw = tuple((k_, _term_to_ast(repo, mod, x)) for k_, x in v.a[2] if k_ != "**")
+                for n_ in list(pos) + [x for _, x in kw]:
+                    for sub in ast.walk(n_):
+                        sub.lineno = sub.end_lineno = lineno
+                        sub.col_offset = sub.end_col_offset = 0
+                out.append(Entry(key, family, found[1], found[2].name, found[2], pos, kw, lineno,
+                                 f"partial({found[2].name}, ...) (computed table)"))
+                continue
+        if v.op not in ("lambda", "call", "func"):
+            raise AnalysisError(f"{mod.name}.handlers[{key!r}] is computed to something that is not callable: {sym.pretty(v)[:80]}")
+        read_back = ast.Subscript(value=ast.Name(id="handlers", ctx=ast.Load()), slice=ast.Constant(key), ctx=ast.Load())
+        name = "generated"
+        out.append(Entry(key, family, mod, f"<{name} {key}>", _wrapper(read_back, key, lineno), (), (), lineno,
+                         f"handlers[{key!r}] (computed table)", True))
     return out
 
 
